@@ -20,6 +20,37 @@ CHECKS = {
         design="3/C01"),
 }
 
+CHECKS["C02"] = dict(
+    engine="symx+cmodel",
+    technique="SMT (z3 QF_BV): symbolic execution of the real encoder/decoder vs. an independent reference encoder, 56-bit vector equalities",
+    text="For every instruction class of every flavour and every register-bank assignment, the bytes produced by the real encoder on "
+         "symbolic operands equal, bit for bit, the bytes of an independent reference encoder written from the layout sentence and "
+         "the pinned wire table; reference-encoded bytes are read back by the real decoder as the intended operands; the header and "
+         "re-serialisation after an app-id change are included. Decided by z3 for all operand values; N<=2 (thorough N<=3) commands.",
+    note="Trusted: z3; vf/cmodel.py (validated against real ctypes every run); spec/wire_table.json as the published table (transcribed "
+         "from the pinned commit, the repository has no machine-readable table); replays use real ctypes.",
+    design="3/C02")
+CHECKS["C15"] = dict(
+    engine="symx+cmodel",
+    technique="SMT (z3 QF_BV): symbolic execution of the real message constructors / bytes() / deserialize_* through the ctypes model",
+    text="Every host and return message type is round-tripped through the real constructor, bytes() and deserialize function with "
+         "every field a free bit-vector of its declared width (declared widths come from the specification side); z3 decides field "
+         "equality with the sender's values on every path; returned arrays of length 0..3 (thorough 0..5) with every pattern of "
+         "undefined entries.",
+    note="Trusted: z3; vf/cmodel.py incl. its field-descriptor-overrides-method behaviour (validated against real ctypes every run); "
+         "replays use real ctypes. Arrays longer than the bound are outside.",
+    design="3/C15")
+CHECKS["C16"] = dict(
+    engine="symx+cmodel",
+    technique="SMT (z3 QF_BV): symbolic execution of the real encoding entry points with one operand a free 64-bit vector assumed out of range",
+    text="For every operand field of every instruction class, the header fields, 13 assembler operand positions, instantiate and four SDK "
+         "entry points, the out-of-range operand is a free 64-bit signed vector constrained only to lie outside the field range; z3 "
+         "decides on every path that the real code raises. All out-of-range 64-bit values are covered at once, including both "
+         "boundaries of every field.",
+    note="Trusted: z3; vf/cmodel.py truncating stores (validated against real ctypes every run). Outside: integers beyond +-2^63, "
+         "text-level numerals. SDK app id case bounded to the 16 adjacent values (the connection hashes it).",
+    design="3/C16")
+
 NOT_YET = "check not built yet in this revision (work in progress; see DESIGN.md section 3 for the planned solver-based check)"
 NOT_APPLICABLE = {}
 
